@@ -34,6 +34,7 @@ type ringRun[T any] struct {
 	joinDiffSingleR, joinDiffSingleS                                 int
 	popSingle, popMulti, nilOps, newNil, skipped                     int
 	maxCycle                                                         int
+	bigProbes, bigProbes1k                                           int // bigAt ops (ringbig.go)
 }
 
 func (r *ringRun[T]) errf(format string, args ...any) string {
@@ -308,6 +309,8 @@ func (r *ringRun[T]) apply(op Op) string {
 			vs[i] = E + 1 + i
 		}
 		return r.register(fmt.Sprintf("Of(%d values)", n), ring.Of(r.b.ins(vs)...), n, false)
+	case "bigAt":
+		return r.bigAt(a, b, abs(op.C))
 	case "nil":
 		r.nilOps++
 		var z *ring.Ring[T]
@@ -455,5 +458,7 @@ func runRingOf[T any](c RingCase, o *vk.Obs, b *bound[T]) string {
 	o.ClassIf(r.newNil > 0, "New/Of_empty")
 	o.ClassIf(r.maxCycle >= 8, "cycle_len>=8")
 	o.ClassIf(len(r.el) == 0, "no_elements")
+	o.ClassIf(r.bigProbes > 0, "big_ring_At/Peek_probes")
+	o.ClassIf(r.bigProbes1k > 0, "big_ring_At/Peek_probes_len>=1024")
 	return ""
 }
